@@ -21,13 +21,21 @@ const (
 )
 
 func (v ControlState) String() string {
-	return [...]string{"", "normally open", "normally closed", "controlled"}[v]
+	switch v {
+	case NormallyOpen:
+		return "normally open"
+	case NormallyClosed:
+		return "normally closed"
+	case Controlled:
+		return "controlled"
+	}
+
+	// ... unknown (including control states > 3 reported by a controller)
+	return ""
 }
 
 func (v ControlState) MarshalJSON() ([]byte, error) {
-	s := [...]string{"", "normally open", "normally closed", "controlled"}[v]
-
-	return json.Marshal(s)
+	return json.Marshal(v.String())
 }
 
 func (v *ControlState) UnmarshalJSON(b []byte) error {
